@@ -929,7 +929,8 @@ header_seek (SF_PRIVATE *psf, sf_count_t position, int whence)
 					while (skip)
 					{	char junk [16 * 1024] ;
 						size_t to_skip = SF_MIN (skip, sizeof (junk)) ;
-						psf_fread (junk, 1, to_skip, psf) ;
+						if (psf_fread (junk, 1, to_skip, psf) != (sf_count_t) to_skip)
+							break ;
 						skip -= to_skip ;
 						}
 					}
